@@ -192,3 +192,35 @@ proof fn sentinel_decode_not_total(s: Seq<char>)
 {
     broadcast use ax_decode_of_plain_dots, ax_decode_of_nonempty;
 }
+
+// ---- route templates: "Paths must begin with a '/'; only the final segment may be empty" ----
+pub proof fn split_has_a_piece(s: Seq<char>)
+    ensures slash_split(s).len() >= 1
+    decreases s.len()
+{
+    first_slash_props(s);
+    let i = first_slash(s);
+    if i >= 0 { split_has_a_piece(s.subrange(i + 1, s.len() as int)); }
+}
+pub proof fn split_of_leading_slash(s: Seq<char>)
+    requires s.len() > 0, s[0] == '/',
+    ensures slash_split(s).len() >= 2, slash_split(s)[0].len() == 0,
+        slash_split(s) == seq![Seq::<char>::empty()] + slash_split(s.subrange(1, s.len() as int)),
+{
+    first_slash_props(s);
+    split_has_a_piece(s.subrange(1, s.len() as int));
+    assert(first_slash(s) == 0);
+    assert(s.subrange(0, 0) =~= Seq::<char>::empty());
+}
+/// the pieces after the leading slash
+pub open spec fn template_pieces(path: Seq<char>) -> Seq<Seq<char>> { slash_split(path).subrange(1, slash_split(path).len() as int) }
+/// a template is malformed if it does not start with '/' or has an empty piece that is not the last
+pub open spec fn malformed_template(path: Seq<char>) -> bool {
+    !(path.len() > 0 && path[0] == '/')
+        || exists|i: int| 0 <= i < template_pieces(path).len() - 1 && #[trigger] template_pieces(path)[i].len() == 0
+}
+/// its segments: the pieces after the leading slash, without a trailing empty piece
+pub open spec fn template_segments(path: Seq<char>) -> Seq<Seq<char>> {
+    let body = template_pieces(path);
+    if body.last().len() == 0 { body.drop_last() } else { body }
+}
